@@ -104,7 +104,13 @@ def _tu_source(cfg, kernels):
         out.append('#line 1 "%s"' % k.name)
         out.append(k.source())
         if getattr(cfg, 'memcheck', False):
-            out.append('extern "C" { extern const unsigned long kmeta_%s[] = { %s }; }' % (k.name, ', '.join('(std::is_class<%s>::value ? sizeof(%s) : 0), alignof(%s)' % (p[1], p[1], p[1]) for p in k.params) or '0'))
+            # extent of each argument object: sizeof for class types; unknown (0) for pointers to scalars (may be the first element of an array) and for arguments the
+            # kernel itself indexes as an array (o[3] = ...: the harness passes several result slots through one pointer)
+            def _ext(p):
+                if re.search(r'\b%s\s*\[' % re.escape(p[0]), k.body):
+                    return '0'
+                return '(std::is_class<%s>::value ? sizeof(%s) : 0)' % (p[1], p[1])
+            out.append('extern "C" { extern const unsigned long kmeta_%s[] = { %s }; }' % (k.name, ', '.join('%s, alignof(%s)' % (_ext(p), p[1]) for p in k.params) or '0'))
     return '\n'.join(out) + '\n'
 
 
